@@ -69,31 +69,29 @@ def known_findings(pid):
 
 
 # ------------------------------------------------------------------ Coq side
-def ensure_makefile():
-    mk = os.path.join(COQ, "Makefile")
-    files = []
-    for d, _, fs in os.walk(os.path.join(COQ, "theories")):
-        for f in fs:
-            if f.endswith(".v"):
-                files.append(os.path.relpath(os.path.join(d, f), COQ))
-    files.sort()
-    stamp = os.path.join(COQ, ".filelist")
+def ensure_makefile(meta):
+    """per-property Makefile over the coqdep closure of the property's files (so that concurrent
+    checks of different properties never rewrite each other's Makefile / dependency file)"""
+    files = closure_files(meta)
+    name = "Makefile." + meta["id"]
+    stamp = os.path.join(COQ, ".filelist." + meta["id"])
     cur = "\n".join(files)
-    if not os.path.exists(mk) or not os.path.exists(stamp) or open(stamp).read() != cur:
-        rc, out = sh(["coq_makefile", "-f", "_CoqProject"] + files + ["-o", "Makefile"], cwd=COQ, timeout=120)
+    if not os.path.exists(os.path.join(COQ, name)) or not os.path.exists(stamp) or open(stamp).read() != cur:
+        rc, out = sh(["coq_makefile", "-f", "_CoqProject"] + files + ["-o", name], cwd=COQ, timeout=120)
         if rc != 0:
             raise RuntimeError("coq_makefile failed:\n" + out)
         open(stamp, "w").write(cur)
+    return name
 
 
 def coq_build(meta, log):
     """build Props/<id>.vo and the Run driver; returns (ok, output)"""
-    ensure_makefile()
+    mk = ensure_makefile(meta)
     targets = [meta["props_file"].replace(".v", ".vo")]
     if meta.get("run_file"):
         targets.append(meta["run_file"].replace(".v", ".vo"))
-    rc, out = sh(["make", "-j16"] + targets, cwd=COQ, timeout=meta.get("coq_timeout", 1500))
-    log.append("== make %s -> rc %d\n%s" % (" ".join(targets), rc, out[-4000:]))
+    rc, out = sh(["make", "-f", mk, "-j16"] + targets, cwd=COQ, timeout=meta.get("coq_timeout", 1500))
+    log.append("== make -f %s %s -> rc %d\n%s" % (mk, " ".join(targets), rc, out[-4000:]))
     return rc == 0, out
 
 
